@@ -10,6 +10,7 @@ META = {
     "level": "Decides: (R1) copyfile stages into <location>'#new' exactly when the destination exists (probed with lstat semantics, so a dangling symlink counts as existing), writes data and applies metadata only to the staging path, and publishes with one os.rename(staging, final) that every write and ensure_perms dominate; (R2) do_link creates directly only with the create-if-absent os.link, otherwise links to '#new' and renames it over the target, removing the temporary on failure, and never unlinks the target; (R3) no other function on the merge path opens or removes a pre-existing destination. Does NOT decide crash-point states; rename(2) atomicity is a POSIX assumption.",
     "note": "rename(2) is atomic and link(2) fails with EEXIST rather than replacing (POSIX); gen_obj uses lstat unless given a stat",
 }
+META["technique"] += "; " + 'generic pack G on the anchored files (optional-flag shift, closures outliving a loop iteration, single-pass iterables consumed twice, %-templates built from data, in-place writes to class-level / memoised objects, generators mutating what they yielded, memo keys that are projections)'
 MOD = "pkgcore.fs.ops"
 
 
